@@ -319,8 +319,8 @@ func (lex *ExprLexer) lexNum() *Token {
 
 	if r == 'e' || r == 'E' {
 		r = lex.eat() // eat 'e' or 'E'
-		if r == '-' {
-			r = lex.eat()
+		if r == '-' || r == '+' {
+			r = lex.eat() // eat the sign. JSON number format allows both '-' and '+' in exponent part
 		}
 
 		if r == '0' {
